@@ -1,6 +1,7 @@
 package main
 
 import (
+	"crypto/tls"
 	"encoding/json"
 	"fmt"
 	"net"
@@ -35,6 +36,8 @@ type lifeScen struct {
 	StopInOutage bool `json:"stopinoutage,omitempty"`
 	// Transport: "" = TCP, "ws" = WebSocket (ws://)
 	Transport string `json:"transport,omitempty"`
+	// TLS: every connection of the scenario negotiates STARTTLS first (required by the server, in-process CA)
+	TLS bool `json:"tls,omitempty"`
 }
 
 // lifeLink is the server side of one connection (TCP stream or WebSocket)
@@ -56,6 +59,7 @@ type lifeSrv struct {
 	cur     lifeLink
 	curN    int
 	ws      bool
+	tls     bool
 	wss     *srv.WSServer
 	pend    map[string][2]interface{} // WebSocket: (n, outcome) of an accepted TCP connection, by remote address
 	// refuseNext = k > 0: the attempt after the next k accepted ones is to be refused: the listener is closed by the
@@ -210,6 +214,39 @@ func (s *lifeSrv) serve(conn lifeLink, n int, out string) {
 		conn.Close()
 		return
 	}
+	if s.tls {
+		tc, isTCP := conn.(*srv.Conn)
+		if !isTCP {
+			fail("notcp")
+			conn.Close()
+			return
+		}
+		conn.Write(srv.StreamHeader("t"+strconv.Itoa(n)) + srv.Features(srv.FeatStartTLSR+srv.FeatMechPlain))
+		if e, ok := exp(); !ok || e.Local != "starttls" {
+			fail("nostarttls")
+			conn.Close()
+			return
+		}
+		conn.Write("<proceed xmlns='" + srv.NSTLS + "'/>")
+		cert := srv.GetPKI().Certs["valid"]
+		if out == "tlsalert" {
+			tc.StartTLSDemandClientCert(cert, 3*time.Second) // fails: the server sends the alert
+			fail("tlsalert")
+			time.Sleep(20 * time.Millisecond)
+			conn.Close()
+			return
+		}
+		if err := tc.StartTLS(cert, 3*time.Second); err != nil {
+			fail("tlshandshake")
+			conn.Close()
+			return
+		}
+		if _, ok := exp(); !ok {
+			fail("noopen2")
+			conn.Close()
+			return
+		}
+	}
 	conn.Write(srv.StreamHeader("s"+strconv.Itoa(n)) + srv.Features(srv.FeatMechPlain))
 	if out == "transient" {
 		// a failure that says nothing about the credentials: the stream is torn down during negotiation
@@ -338,6 +375,16 @@ func lifeRunOne(w *tr.Writer, tid int, raw json.RawMessage, c *common) error {
 	if err := json.Unmarshal(raw, &sc); err != nil {
 		return err
 	}
+	for _, rd := range sc.Rounds {
+		for _, a := range rd.Attempts {
+			if a == "tlsalert" {
+				sc.TLS = true // that outcome needs STARTTLS on every connection of the scenario
+			}
+		}
+	}
+	if sc.TLS {
+		sc.Transport = ""
+	}
 	run := &sessRun{cnt: map[string]int{}, w: w, tid: tid}
 	run.cond = sync.NewCond(&run.mu)
 	curRun.Store(run)
@@ -361,7 +408,7 @@ func lifeRunOne(w *tr.Writer, tid int, raw json.RawMessage, c *common) error {
 		return fmt.Errorf("precondition: %v", err)
 	}
 	s := &lifeSrv{addr: l0.Addr().String(), w: w, sm: sc.SM, upCh: make(chan int, 16), l: l0, pings: map[int]int{},
-		ws: sc.Transport == "ws", pend: map[string][2]interface{}{}}
+		ws: sc.Transport == "ws", pend: map[string][2]interface{}{}, tls: sc.TLS}
 	dialAddr := s.addr
 	if s.ws {
 		s.wss = srv.ServeWSOn(lifeGate{l0, s}, nil)
@@ -383,6 +430,11 @@ func lifeRunOne(w *tr.Writer, tid int, raw json.RawMessage, c *common) error {
 		TransportConfiguration: xmpp.TransportConfiguration{Address: dialAddr, ConnectTimeout: 1, Domain: "localhost"},
 		Jid:                    "test@localhost/res", Credential: xmpp.Password("secret"), Insecure: true,
 		StreamManagementEnable: sc.SM, KeepaliveInterval: ka, ConnectTimeout: 1,
+	}
+	if sc.TLS {
+		cfg.Insecure = false
+		cfg.TLSConfig = &tls.Config{RootCAs: srv.GetPKI().Pool}
+		cfg.TransportConfiguration.Domain = "localhost"
 	}
 	xmpp.VerifSetStreamManagementResume(cfg, true)
 	client, err := xmpp.NewClient(cfg, router, func(e error) { w.Emit(tr.Rec{"ev": "errcb"}) })
@@ -450,7 +502,7 @@ func lifeRunOne(w *tr.Writer, tid int, raw json.RawMessage, c *common) error {
 		w.Emit(tr.Rec{"ev": "round", "i": ri + 1, "drop": rd.Drop, "attempts": rd.Attempts, "resume": rd.Resume})
 		hasPerm := false
 		for _, a := range rd.Attempts {
-			if a == "auth" || a == "authtext" {
+			if a == "auth" || a == "authtext" || a == "tlsalert" {
 				hasPerm = true
 			}
 		}
@@ -580,7 +632,7 @@ func lifeRunOne(w *tr.Writer, tid int, raw json.RawMessage, c *common) error {
 				stuck = true
 				break
 			}
-			if a == "auth" || a == "authtext" {
+			if a == "auth" || a == "authtext" || a == "tlsalert" {
 				break
 			}
 		}
@@ -674,7 +726,7 @@ func runLife(args []string) error {
 				ok := true
 				for _, rd := range sc.Rounds {
 					for _, a := range rd.Attempts {
-						if a == "auth" || a == "authtext" {
+						if a == "auth" || a == "authtext" || a == "tlsalert" {
 							ok = false
 						}
 					}
